@@ -91,6 +91,7 @@ def run(res):
     synthetic_labels(res, rnd)
     from props import session_labels
     session_labels.run(res)
+    reused_addresses(res, rnd)
 
 
 def synthetic_labels(res, rnd):
@@ -147,9 +148,52 @@ def synthetic_labels(res, rnd):
     res.count('synthetic_labels', len(cases))
 
 
+def reused_addresses(res, rnd):
+    """connection names in GDB mode, where an address is closed and used again by an unrelated connection: every connection
+    (closed ones stay listed) has its own name, and `list X:` returns that connection's messages only"""
+    import gdbcheck
+    import implgdb
+    n = 50 if res.tier == 'quick' else 2000
+    cases = [gdbcheck.build_case(rnd, n_addr=rnd.choice([1, 1, 2, 3])) for _ in range(n)]
+    gdbcheck.run_cases(res, cases, lambda cat: cat.startswith('final.conn') or cat in ('out.gmsg', 'out.gdestroy'), 'C14 (connection names when addresses are used again)',
+                       theorem='C14_conn_names_distinct / C15_conns_are_lifetimes', nontrivial=lambda c, m: False, kernel_sample=3)
+    for c in cases[: (25 if res.tier == 'quick' else 600)]:
+        try:
+            r = implgdb.GdbRunner(c['config'], c['events'])
+            r.run()
+        except Exception:
+            continue                      # reported by the differential run above
+        conns = list(r.cm.connection_list)
+        names = [x.name() for x in conns]
+        res.evaluations += 1
+        if len(set(names)) != len(names):
+            res.disagree('two connections share a name', dict(config=c['config'], events=c['events']), 'distinct', names,
+                         sig={'category': 'label-conn-unique', 'entry': 'gdb'}, theorem='C14_conn_names_distinct')
+            continue
+        for x in conns:
+            st = len(r.log)
+            r.ctrl.process_command('list %s:' % x.name())
+            lines = [t for s_, t in r.log[st:] if __import__('re').match(r'\s*-?\d+\.\d{4} ', t)]
+            want = [m for m in r.ctrl.all_messages if getattr(m.obj, 'connection', None) is x]
+            if len(lines) != len(want):
+                res.disagree('`list X:` does not select exactly the messages of connection X', dict(config=c['config'], events=c['events'], conn=x.name()),
+                             len(want), len(lines), sig={'category': 'conn-as-matcher', 'entry': 'gdb'}, theorem='C14_conn_as_matcher')
+
+
 def replay(dis):
     from core.letter_id_generator import number_to_letter_id, letter_id_to_number
     c = dis['input']
+    if isinstance(c, dict) and 'events' in c and 'impl_events' not in c:
+        import gdbcheck
+        import sessioncheck
+        m = common.model_eval('session', [[sessioncheck.mcfg(c['config']), gdbcheck.model_events(c['events'])]], shards=1)[0]
+        r = gdbcheck.compare_case(c, m)
+        print('differences:', r)
+        print('REPRODUCED' if r and r != 'oom' else 'not reproduced on the current tree')
+        return 1 if r and r != 'oom' else 0
+    if not isinstance(c, list):
+        print(dis.get('what'), str(c)[:2000], dis.get('model'), dis.get('impl'))
+        return 0
     if dis['sig'].get('entry') == 'l2n':
         print('impl :', ires(letter_id_to_number, c))
         print('model:', common.model_eval('l2n', [c])[0])
